@@ -422,6 +422,26 @@ func (s *Server) cleanupExpiredLeases() {
 	}
 }
 
+// expireLease ends the client's lease if its valid lifetime has run out.
+func (s *Server) expireLease(clientDUID string) {
+	ctx := context.Background()
+
+	s.leasesMu.Lock()
+	defer s.leasesMu.Unlock()
+
+	lease, ok := s.leases[clientDUID]
+	if !ok || lease.ValidEnd.IsZero() || !time.Now().After(lease.ValidEnd) {
+		return
+	}
+	if lease.Address != nil {
+		s.releaseAddress(ctx, clientDUID)
+	}
+	if lease.Prefix != nil {
+		s.releasePrefix(ctx, clientDUID)
+	}
+	delete(s.leases, clientDUID)
+}
+
 // Stop stops the DHCPv6 server
 func (s *Server) Stop() error {
 	atomic.StoreInt32(&s.running, 0)
@@ -517,6 +537,10 @@ func (s *Server) handleSolicit(msg *Message, addr *net.UDPAddr) {
 		response = s.buildReply(msg, clientDUID, addr.IP)
 		response.Options = append(response.Options, Option{Code: OptRapidCommit})
 	} else {
+		// A lease whose valid lifetime has run out ends here, before the
+		// Advertise is built: left to the periodic cleanup it would take the
+		// advertised address back from this client and free it for another
+		s.expireLease(clientDUID)
 		response = s.buildAdvertise(msg, clientDUID, addr.IP)
 	}
 
